@@ -213,7 +213,7 @@ theorem normalized_code_reads_same (v : Ver) (T : OpTable) (F : FlagTable) (dec 
     (table : List Nat)
     (htable : LT.fromLineMapping v.is310 ⟨out.lm.lines.map (fun p => (p.1, p.2.map (· - fln))), out.lm.extra⟩ = .ok table)
     (argc' pos' kw' nl' ss' fl' : Nat) (fname' name' : PStr)
-    (hfit : ∀ args0 args fuel, relax v (normCode d).blocks.flatten (blockStarts (normCode d).blocks 0) fuel args0 = .ok args →
+    (hfit : ∀ args, finalArgs v (normCode d).blocks (normCode d).addArgs (normCode d).freevars (normCode d).type = .ok args →
       ∀ p ∈ (normCode d).blocks.flatten.zip args, Encodable p.1 p.2) :
     ∃ constants : List Const,
       consts.mapM (fun c => match c with | .inner i => pure (Const.inner i) | .code k => Const.code <$> dec k) = .ok constants ∧
